@@ -1,8 +1,10 @@
 ------------------------- MODULE CatalogWatch_Trace -------------------------
 (* Contract acceptor for traces recorded by harness/drivers/catwatch from the real CollectionReader + EtcdOp.       *)
 (* The log is totally ordered (one mutex): init (catalog, tasks), w (catalog write, logged before the put), r (a    *)
-(* reader step of some task; "list" carries the ids GetAllCollection returned), start / addp / dropc / dropp (calls *)
-(* on the recording channel manager), end (trace cut after the driver's quiescence protocol).  The acceptor keeps   *)
+(* reader step of some task; "list" carries the ids GetAllCollection returned; "sub" = the task registered its      *)
+(* consumers), db (a database record is written), d (delivery barrier: the watches have handled what was written so  *)
+(* far), start / addp / dropc / dropp (calls on the recording channel manager), end (trace cut after the driver's    *)
+(* quiescence protocol).  The acceptor keeps                                                                         *)
 (* the ghost variables of CatalogWatch.tla (catalog, ever, started, bad, added, droppedC, allOlder, newestL) and    *)
 (* requires the contract clauses: always OnlyCreated, OnlySelected, NoOlderStart; ListingHonoured at the listing    *)
 (* task's next step; CollsStarted / PartsAdded at the end.  Duplicate calls are accepted (idempotence of the real   *)
@@ -27,11 +29,11 @@ InU(S) == S \subseteq Ids
 
 TInit == /\ tr \in 1..Len(Traces) /\ l = 1 /\ mustP = {}
          /\ cat0 = <<>> /\ coll = [id \in Ids |-> "none"] /\ part = [id \in Ids |-> "none"]
-         /\ pc = 0 /\ cbuf = <<>> /\ pbuf = <<>> /\ cpos = 0 /\ ppos = 0 /\ older = {}
+         /\ sub = FALSE /\ pc = 0 /\ cbuf = <<>> /\ pbuf = <<>> /\ cpos = 0 /\ ppos = 0 /\ older = {}
          /\ started = {} /\ bad = {} /\ added = {} /\ droppedC = {} /\ ever = {} /\ everP = {}
          /\ allOlder = {} /\ newestL = {} /\ nw = 0 /\ hist = <<>>
 
-Frame == UNCHANGED <<cat0, pc, cbuf, pbuf, cpos, ppos, older, nw, hist>>
+Frame == UNCHANGED <<cat0, sub, pc, cbuf, pbuf, cpos, ppos, older, nw, hist>>
 
 CollAfter(kind, st) == CASE kind = "new" -> "creating" [] kind = "ok" -> "created" [] kind \in {"fail", "gc"} -> "tombstone"
                          [] kind = "drop" -> "dropping" [] kind = "dropped" -> "dropped" [] OTHER -> st
@@ -67,7 +69,7 @@ EvStep(t, e) ==
           /\ ListingHonoured                         \* the listing has been acted upon before partitions are read
           /\ mustP' = mustP \cup {id \in Ids : part[id] = "created" /\ coll[id] = "created" /\ id \notin allOlder /\ id[1] \in TSel(t, e.task)}
           /\ UNCHANGED <<allOlder, newestL>>
-       \/ /\ e.kind \in {"openc", "openp"} /\ UNCHANGED <<allOlder, newestL, mustP>>
+       \/ /\ e.kind \in {"sub", "openc", "openp"} /\ UNCHANGED <<allOlder, newestL, mustP>>
        \/ /\ e.kind = "startw" /\ ListingHonoured /\ UNCHANGED <<allOlder, newestL, mustP>>
     /\ UNCHANGED <<coll, part, ever, everP, started, bad, added, droppedC>>
 
@@ -106,6 +108,8 @@ TStep ==
               [] e.op = "addp" -> EvAddP(e)
               [] e.op = "dropc" -> EvDropC(e)
               [] e.op = "dropp" -> EvOther
+              [] e.op = "db" -> EvOther                  \* a database record is written (variant -ldb): no contract content
+              [] e.op = "d" -> EvOther                   \* delivery barrier of the driver: no contract content
               [] e.op = "end" -> EvEnd(t, e) /\ l = Len(t.events)
               [] OTHER -> FALSE
          /\ OnlyCreated' /\ OnlySelectedP(TSelected(t))' /\ NoOlderStart'
